@@ -200,6 +200,7 @@ def reuse_scenario(ctx, rng, maxchan):
 
 def run(ctx):
     rng = ctx.rng
+    tg.set_verbosity_seed(ctx.seed)
     all_in, all_out = [], []
     for maxchan in (1, 2, 3):
         ins, outs = reuse_scenario(ctx, rng, maxchan)
@@ -268,6 +269,9 @@ def replay(ctx, rep):
         return tg.replay_work(rep['case'])
     s, wrote = tg.replay_script(rep['case'])
     try:
+        common_verdict = tg.replay_common(s)
+        if common_verdict:
+            return common_verdict
         class Sc:
             pass
         sc = Sc()
